@@ -587,6 +587,14 @@ class BitStream(ConstBitStream, bitstring.BitArray):
             # Setting via an interpretation (e.g. s.hex = 'ff' or s.u8 = 3) changed the length, so reset the bit position.
             self._pos = 0
 
+    @classmethod
+    def fromstring(cls: TBits, s: str, /) -> TBits:
+        """Create a new bitstring from a formatted string."""
+        x = super().fromstring(s)
+        # The parsed value comes from a shared cache, so a mutable bitstring needs its own copy.
+        x._bitstore = x._bitstore._copy()
+        return x
+
     def __copy__(self) -> BitStream:
         """Return a new copy of the BitStream."""
         s_copy = object.__new__(BitStream)
